@@ -242,6 +242,10 @@ Definition msg_eqb (a b : msg) : bool :=
   | _, _ => false
   end.
 
+(* a notification that lists no change tells nobody anything: sending it or not is the same behaviour *)
+Definition drop_empty_hooks (ms : list msg) : list msg :=
+  filter (fun m => match m with HookMsg _ [] => false | _ => true end) ms.
+
 Definition nonzero (l : list (N * N)) : list (N * N) := filter (fun kv => negb (snd kv =? 0)) l.
 Definition nonempty {A} (l : list (N * list A)) : list (N * list A) :=
   filter (fun kv => match snd kv with [] => false | _ => true end) l.
@@ -329,7 +333,8 @@ Fixpoint check_steps (prop : N) (npool : N) (pure : bool) (i : N) (st : state) (
       else if negb (Bool.eqb ok ok_m) then (if owns_acceptance prop o then [(i, 49)] else [])
       else if negb (corr prop npool st' after (height blk)) then [(i, 50)]
       else if ((prop =? 14) || (prop =? 10)) && hok &&
-              negb (list_eqb msg_eqb ms (match step st blk caller o' with Ok (_, m) => m | _ => [] end))
+              negb (list_eqb msg_eqb (drop_empty_hooks ms)
+                                     (drop_empty_hooks (match step st blk caller o' with Ok (_, m) => m | _ => [] end)))
            then [(i, 51)]
       else check_steps prop npool pure (i + 1) st' after r
   end.
